@@ -134,10 +134,14 @@ def handle (toks : List String) : String :=
     | some hays =>
       showList (fun h : Row => match h with | none => "~" | some s => toString (lengthModel s)) hays
     | none => "bad-op"
-  | ["bitlen", _kind, hays] =>
+  | ["bitlen", kind, hays] =>
     match parseRows hays with
     | some hays =>
-      showList (fun h : Row => match h with | none => "~" | some s => toString (bitLengthModel s)) hays
+      -- kinds 2, 6, 10 are the view encodings (separate code path in `bit_length`)
+      let view := kind = "2" || kind = "6" || kind = "10"
+      showList (fun h : Row => match h with
+        | none => "~"
+        | some s => toString (if view then bitLengthModelView s else bitLengthModel s)) hays
     | none => "bad-op"
   | _ => "bad-op"
 
